@@ -502,6 +502,12 @@ func (s torn) exec(c *Ctx, cs tornCase) {
 		return
 	}
 	if oc.Err == "" {
+		if fm == "binary" {
+			// malformed bytes strictly inside a value that the reader of a local symbol table ignores get their own signature
+			if _, e := ref.DecodeBinary(cs.Data, ref.Options{}); e != nil && ref.InLSTOpenContent(cs.Data, e.Pos) {
+				sigTail = fm + "/inside-ignored-symbol-table-content"
+			}
+		}
 		c.Report("C07", "C07.E", "C07.E/"+sigTail, fmt.Sprintf("certainly invalid stream (%s; reference decoder: %s) was traversed completely with no error; %d observations; stream=%s", cs.Edit, cs.Rule, len(oc.Lines), showOut(cs.Data, fm == "binary")), cs)
 		return
 	}
